@@ -185,10 +185,17 @@ pub struct Sk {
     /// fail the k-th flush call (0-based)
     #[serde(default)]
     pub fail_flush_at: Option<usize>,
+    /// capacity set aside before the run, so that the sink itself never reallocates (heap measurements)
+    #[serde(default)]
+    pub reserve: usize,
+    /// the sink implements write_vectored itself: one call may accept bytes from several buffers (up to `chunk` / the
+    /// next cut), like a socket or a file does; without it the default (first non-empty buffer only) applies
+    #[serde(default)]
+    pub vectored: bool,
 }
 impl Sk {
     pub fn is_plain(&self) -> bool {
-        self.chunk == 0 && self.cuts.is_empty() && self.fail_write_at.is_none() && self.fail_flush_at.is_none()
+        self.chunk == 0 && self.cuts.is_empty() && self.fail_write_at.is_none() && self.fail_flush_at.is_none() && self.reserve == 0 && !self.vectored
     }
 }
 #[derive(Default, Debug)]
@@ -211,7 +218,8 @@ impl TestSink {
     pub fn new(spec: &Sk) -> Self {
         let mut spec = spec.clone();
         spec.cuts.sort_unstable();
-        TestSink { st: Rc::new(RefCell::new(SinkState::default())), spec }
+        let st = SinkState { data: Vec::with_capacity(spec.reserve), ..SinkState::default() };
+        TestSink { st: Rc::new(RefCell::new(st)), spec }
     }
 }
 impl std::fmt::Debug for TestSink {
@@ -242,6 +250,15 @@ impl Write for TestSink {
         }
         s.data.extend_from_slice(&buf[..n]);
         Ok(n)
+    }
+    fn write_vectored(&mut self, bufs: &[io::IoSlice<'_>]) -> io::Result<usize> {
+        if self.spec.vectored {
+            let all: Vec<u8> = bufs.iter().flat_map(|b| b.iter().copied()).collect();
+            self.write(&all)
+        } else {
+            let first = bufs.iter().find(|b| !b.is_empty()).map_or(&[][..], |b| &**b);
+            self.write(first)
+        }
     }
     fn flush(&mut self) -> io::Result<()> {
         let mut s = self.st.borrow_mut();
@@ -327,6 +344,9 @@ pub struct OpObs {
     pub n: Option<u64>,
     /// bytes in the sink after the op
     pub sink_len: usize,
+    /// an injected sink fault has been hit by the end of this op
+    #[serde(default)]
+    pub fault: bool,
 }
 #[derive(Clone, Debug, Serialize, Deserialize)]
 pub struct Obs {
@@ -421,11 +441,12 @@ fn base_obs() -> Obs {
 }
 
 fn fill_sink(o: &mut Obs, sink: &TestSink) {
-    let s = sink.st.borrow();
-    o.out = Hex(s.data.clone());
+    let mut s = sink.st.borrow_mut();
     o.writes = s.writes;
     o.flushes = s.flushes;
     o.flushed_all = s.flushed_upto == Some(s.data.len());
+    // moved, not copied: the copy would show up in the heap peak of the case
+    o.out = Hex(std::mem::take(&mut s.data));
     o.fault_hit |= s.fault_hit;
     o.sink_calls_after_fault = s.calls_after_fault;
 }
@@ -521,7 +542,7 @@ impl StreamH {
                 (v, w.map(|w| w.st.borrow().data.len() as u64))
             }
         };
-        OpObs { v, n, sink_len: self.sink_len() }
+        OpObs { v, n, sink_len: self.sink_len(), fault: self.sink.st.borrow().fault_hit }
     }
     /// 128-bit fingerprint of the live internal state + sink contents.
     pub fn fingerprint(&self, with_dead: bool) -> u128 {
@@ -721,7 +742,7 @@ impl WinHarness {
                 (v, None)
             }
         };
-        OpObs { v, n, sink_len: self.sink.st.borrow().data.len() }
+        OpObs { v, n, sink_len: self.sink.st.borrow().data.len(), fault: self.sink.st.borrow().fault_hit }
     }
 }
 
@@ -852,7 +873,7 @@ fn run_raw(h: &mut RawH, ops: &[RawOp], o: &mut Obs) {
             o.consumed = r.consumed;
             o.out = Hex(r.out.clone());
         }
-        o.ops.push(OpObs { v: r.v, n: Some(r.consumed as u64), sink_len: r.out.len() });
+        o.ops.push(OpObs { v: r.v, n: Some(r.consumed as u64), sink_len: r.out.len(), fault: false });
         all.push(r.out);
     }
 }
